@@ -949,6 +949,115 @@ Proof.
     + f_equal. pose proof (zlen_zrange n (plast + 1) ltac:(lia)) as Hz. unfold zlen in Hz, Hcount. lia.
     + intros p Hp. apply zrange_In in Hp. apply (expected_spoiled p done f post i_split0 Hbad); fold o; fold e; nia.
   - rewrite map_app, flat_map_app, map_fst_pair, Hexcs, i_reports0.
-    rewrite flat_map_app in *. rewrite HE0. cbn [app]. rewrite !app_nil_r.
+    rewrite (flat_map_app _ E0 C), HE0. cbn [app]. rewrite !app_nil_r.
     rewrite !flat_map_app. cbn [flat_map]. rewrite Hrep, app_nil_r. rewrite <- app_assoc. reflexivity.
+Qed.
+
+Lemma iter_files_inv : forall todo done st acc,
+  inv done todo st acc ->
+  exists acc' st', iter_files d fs L todo st acc = Ok (acc', st') /\ inv (done ++ todo) [] st' acc'.
+Proof.
+  induction todo as [|f post IH]; intros done st acc I.
+  - exists acc, st. rewrite app_nil_r. split; [reflexivity|exact I].
+  - replace (done ++ f :: post) with ((done ++ [f]) ++ post) by (rewrite <- app_assoc; reflexivity).
+    cbn [iter_files].
+    destruct (Z_le_gt_dec (total_size done + fsize f) (zlen acc * L)) as [Hcov|Hnc].
+    + destruct (step_covered done f post st acc I Hcov) as [Hmem I']. rewrite Hmem. apply IH. exact I'.
+    + destruct (disk_get d (fid f)) as [c|] eqn:Hc.
+      * destruct (zlen c =? fsize f) eqn:Ez.
+        -- (* intact file *)
+           destruct (get_open_file_present d (it_h st) (fid f) c Hc) as [h' Hopen].
+           destruct (step_good done f post st acc c h' I ltac:(lia) Hc ltac:(lia)) as (Hmem & Hps & I').
+           rewrite Hmem. cbn [negb]. rewrite Hopen, Hps.
+           fold (fulls L (slice vs (zlen acc * L) (total_size done + fsize f))).
+           fold (rem L (slice vs (zlen acc * L) (total_size done + fsize f))).
+           apply IH. exact I'.
+        -- (* wrong size *)
+           assert (goodb d f = false) as Hbad by (unfold goodb; rewrite Hc; exact Ez).
+           assert (report_of d f = [(XSize, fid f)]) as Hrep by (unfold report_of; rewrite Hc, Ez; reflexivity).
+           destruct (step_bad done f post st acc (XSize, fid f) (it_h st) I ltac:(lia) Hbad Hrep)
+             as (items & skip & mp' & Hmem & Hmp & I').
+           rewrite Hmem. cbn [negb]. rewrite Hmp. cbn [bind]. apply IH. exact I'.
+      * (* missing *)
+        assert (goodb d f = false) as Hbad by (unfold goodb; rewrite Hc; reflexivity).
+        assert (report_of d f = [(XMissing, fid f)]) as Hrep by (unfold report_of; rewrite Hc; reflexivity).
+        destruct (get_open_file d (it_h st) (fid f)) as [r h'] eqn:Hopen.
+        destruct (step_bad done f post st acc (XMissing, fid f) h' I ltac:(lia) Hbad Hrep)
+          as (items & skip & mp' & Hmem & Hmp & I').
+        rewrite Hmem. destruct r as [u|e0]; rewrite Hmp; cbn [bind]; apply IH; exact I'.
+Qed.
+
+Lemma inv_init h :
+  inv [] fs {| it_trailing := []; it_skip := 0; it_mp := {| mp_seen := []; mp_bycatch := [] |};
+               it_h := h; it_lastfile := 0 |} [].
+Proof.
+  constructor; cbn [it_trailing it_skip it_mp mp_seen mp_bycatch app];
+    change (zlen (@nil (item * handles))) with 0; change (total_size []) with 0; rewrite ?Z.mul_0_l.
+  - reflexivity.
+  - lia.
+  - lia.
+  - rewrite slice_empty by lia. reflexivity.
+  - apply bc_ok_none; [exact Hpos|lia|reflexivity].
+  - apply skip_ok_good; [lia|exact Hpos].
+  - intros x [].
+  - lia.
+  - reflexivity.
+  - reflexivity.
+  - rewrite covered_nil by (try exact Hpos; lia). reflexivity.
+Qed.
+
+Theorem iter_pieces_damage h :
+  exists items,
+    iter_pieces d h fs L = Ok items /\
+    map piece_of items = map expected (zrange 0 (cdiv total L)) /\
+    flat_map excs_of items = flat_map (report_of d) fs.
+Proof.
+  unfold iter_pieces, iter_pieces_snap. replace (L <=? 0) with false by lia.
+  destruct (iter_files_inv fs [] _ [] (inv_init h)) as (acc & st & E & I).
+  rewrite E. cbn [bind res_map app] in *. destruct I. cbn [app] in *. rewrite app_nil_r in *.
+  set (n := zlen acc) in *. fold total in i_lo0, i_hi0, i_trail0, i_has0.
+  pose proof (zlen_nonneg acc) as Hn0. fold n in Hn0.
+  pose proof (total_size_nonneg fs (allpos_nonneg _ Hpos)) as Ht0. fold total in Ht0.
+  destruct (Z_le_gt_dec total (n * L)) as [Hfull|Hpart].
+  - (* the last piece was complete or faked *)
+    rewrite slice_empty in i_trail0 by lia. rewrite i_trail0.
+    exists (map fst acc). split; [reflexivity|]. split; [|exact i_reports0].
+    rewrite i_pieces0. fold n. f_equal. f_equal. unfold cdiv.
+    apply Z.div_unique with (r := total + L - 1 - n * L); lia.
+  - (* a last, shorter piece is pending *)
+    assert (zlen (slice vs (n * L) total) = total - n * L) as Hlen
+      by (rewrite slice_len; rewrite ?zlen_vs; lia).
+    destruct (it_trailing st) as [|b t] eqn:Et.
+    { exfalso. rewrite <- i_trail0 in Hlen. unfold zlen in Hlen. cbn in Hlen. lia. }
+    rewrite <- Et in i_trail0 |- *. clear Et.
+    eexists. split; [reflexivity|]. rewrite !map_app, flat_map_app. cbn [map fst flat_map excs_of snd app].
+    rewrite !app_nil_r. split; [|exact i_reports0].
+    assert (cdiv total L = n + 1) as ->.
+    { unfold cdiv. symmetry. apply Z.div_unique with (r := total + L - 1 - (n + 1) * L); lia. }
+    rewrite (zrange_app 0 n (n + 1)) by lia. rewrite (map_app expected), i_pieces0. fold n. f_equal.
+    assert (zrange n (n + 1) = [n]) as ->.
+    { unfold zrange. replace (n + 1 - n) with 1 by lia. change (Z.to_nat 1) with 1%nat. cbn [seq map]. f_equal. lia. }
+    cbn [map]. unfold piece_of at 1. cbn [fst]. f_equal. unfold expected.
+    rewrite Z.min_r by lia. rewrite i_clean0 by lia.
+    rewrite i_trail0. reflexivity.
+Qed.
+
+End Main.
+
+(* the statement exported as C10_refines *)
+Theorem iter_pieces_refines d L fs h :
+  0 < L -> allpos fs -> NoDup fs ->
+  exists items,
+    iter_pieces d h fs L = Ok items /\
+    map piece_of items = map (expected d L fs) (zrange 0 (cdiv (total_size fs) L)) /\
+    zlen items = cdiv (total_size fs) L /\
+    flat_map excs_of items = flat_map (report_of d) fs.
+Proof.
+  intros HL Hpos Hnd.
+  destruct (iter_pieces_damage d L HL fs Hnd Hpos h) as (items & E & Hp & Hr).
+  exists items. repeat split; try assumption.
+  assert (0 <= cdiv (total_size fs) L) as Hc.
+  { unfold cdiv. apply Z.div_pos; [|lia]. pose proof (total_size_nonneg fs (allpos_nonneg _ Hpos)). lia. }
+  pose proof (zlen_zrange 0 (cdiv (total_size fs) L) Hc) as Hz. rewrite Z.sub_0_r in Hz. rewrite <- Hz.
+  unfold zlen. rewrite <- (map_length piece_of items), Hp, map_length. reflexivity.
 Qed.
